@@ -73,12 +73,14 @@ OUTER:
 				atomic.StoreUint64(&s.stats.persistSnapshotSize, uint64(ourSnapshot.Size()))
 				atomic.StoreUint64(&s.stats.persistEpoch, ourSnapshot.epoch)
 			}
+			verifHook("persist.grab", s, ourSnapshot, len(ourPersisted), len(ourPersistedCallbacks))
 			s.rootLock.Unlock()
 
 			if ourSnapshot != nil {
 				startTime := time.Now()
 
 				err = s.persistSnapshot(merges, persists, ourSnapshot)
+				verifHook("persist.result", s, ourSnapshot, err)
 				for _, ch := range ourPersisted {
 					if err != nil {
 						ch <- err
